@@ -1,6 +1,7 @@
 package main
 
 import (
+	"go/types"
 	"fmt"
 	"go/token"
 
@@ -20,6 +21,8 @@ func checkC05(c *Ctx) {
 	r052(c)
 	r053(c, "R05.3 check-covers-all-pairs")
 	r054(c)
+	// "the same pair" means the same thing to the ownership test and to routing
+	rPrefixNormalForm(c, "R05.5 prefix-normal-form")
 }
 
 func r051(c *Ctx) {
@@ -273,4 +276,90 @@ func r054(c *Ctx) {
 		o := fname(outer(u.in))
 		c.ob(rule, "call ServiceMap.Remove <- "+o, u.instr.Pos(), o == "(*server.Router).RemoveService", false, "")
 	}
+}
+
+// rPrefixNormalForm: ownership compares path prefixes with ==, routing compares them after adding a trailing slash: the two
+// agree only if every stored prefix is in ONE normal form - "/" followed by the prefix with all leading and trailing
+// slashes removed. NormalizePathPrefixes must produce that for every element (shared by C04, C05).
+func rPrefixNormalForm(c *Ctx, rule string) {
+	c.floor(rule, 2)
+	fn := c.fn("NormalizePathPrefixes")
+	var trimmed func(v ssa.Value, d int) (ssa.Value, bool, bool) // inner value, left trimmed, right trimmed
+	trimmed = func(v ssa.Value, d int) (ssa.Value, bool, bool) {
+		call, ok := resolve(v).(*ssa.Call)
+		if !ok || d > 3 || len(call.Call.Args) != 2 {
+			return v, false, false
+		}
+		if cut, _ := constString(call.Call.Args[1]); cut != "/" {
+			return v, false, false
+		}
+		switch calleeName(call.Common()) {
+		case "strings.Trim":
+			return call.Call.Args[0], true, true
+		case "strings.TrimLeft":
+			in, l, r := trimmed(call.Call.Args[0], d+1)
+			_ = l
+			return in, true, r
+		case "strings.TrimRight":
+			in, l, r := trimmed(call.Call.Args[0], d+1)
+			_ = r
+			return in, l, true
+		}
+		return v, false, false
+	}
+	n := 0
+	// every string put into a list element by this function (appended, or assigned by index) is the root path constant or
+	// a prefix in normal form
+	for _, blk := range fn.Blocks {
+		for _, in := range blk.Instrs {
+			st, isSt := in.(*ssa.Store)
+			if !isSt {
+				continue
+			}
+			if _, isElem := st.Addr.(*ssa.IndexAddr); !isElem {
+				continue
+			}
+			if bt, isBasic := st.Val.Type().Underlying().(*types.Basic); !isBasic || bt.Kind() != types.String {
+				continue
+			}
+			if sv, isConst := constString(st.Val); isConst && sv == "/" {
+				continue
+			}
+			n++
+			ok := false
+			if bo, isB := resolve(st.Val).(*ssa.BinOp); isB && bo.Op == token.ADD {
+				if lead, _ := constString(bo.X); lead == "/" {
+					if in, l, r := trimmed(bo.Y, 0); l && r {
+						if src, full := fullRangeElem(resolve(in)); full && resolve(src) == ssa.Value(fn.Params[0]) {
+							ok = true
+						}
+					}
+				}
+			}
+			c.ob(rule, "NormalizePathPrefixes/element-normal-form", st.Pos(), ok, true, "every stored prefix must be \"/\" + the given prefix without leading AND trailing slashes: \"/api\" and \"api/\" are the same prefix for routing and must be the same for the ownership test")
+		}
+	}
+	c.ob(rule, "NormalizePathPrefixes/builds-the-list", fn.Pos(), n >= 1, true, "")
+	// the default for "no prefix" is the root path
+	okDef := false
+	for _, rc := range retCases(fn) {
+		els := varargElems(rc.vals[0])
+		if len(els) == 1 {
+			if sv, ok := constString(els[0]); ok && sv == "/" {
+				for _, f := range intFactsOf(rc.conds, func(v ssa.Value) bool {
+					call, ok := v.(*ssa.Call)
+					if !ok {
+						return false
+					}
+					bi, ok := call.Call.Value.(*ssa.Builtin)
+					return ok && bi.Name() == "len" && resolve(call.Call.Args[0]) == ssa.Value(fn.Params[0])
+				}) {
+					if f.op == token.EQL && f.k == 0 {
+						okDef = true
+					}
+				}
+			}
+		}
+	}
+	c.ob(rule, "NormalizePathPrefixes/no-prefix-means-root", fn.Pos(), okDef, true, "")
 }
